@@ -48,7 +48,27 @@ impl<'a> Tr<'a> {
             Expr::Group(p) => self.expr_inner(&p.expr, expect),
             Expr::Reference(r) => self.expr_inner(&r.expr, expect),
             Expr::Unary(u) => match u.op {
-                UnOp::Deref(_) => self.expr_inner(&u.expr, expect),
+                UnOp::Deref(_) => {
+                    // `*p.add(i)` / `*p.offset(i)` with `p` a pointer into a slice: a read at that index, undefined
+                    // behaviour outside the slice
+                    if let Expr::MethodCall(mc) = peel_paren(&u.expr) {
+                        if mc.method == "add" || mc.method == "offset" {
+                            if let Some((s, Some(off))) = self.ptr_pattern(&u.expr)? {
+                                let et = match self.sub.shallow(&s.ty) {
+                                    Ty::Slice(e) => (*e).clone(),
+                                    Ty::Str => Ty::Int(IntTy::U8),
+                                    _ => return self.err(e.span(), "pointer read from something that is not a slice"),
+                                };
+                                let t = self.fresh("t");
+                                let mut pre = s.pre;
+                                pre.extend(off.pre);
+                                pre.push(format!("let {} ← Rs.ptrRead {} {}", t, s.term, off.term));
+                                return Ok(Out { pre, term: t, ty: et, diverges: false });
+                            }
+                        }
+                    }
+                    self.expr_inner(&u.expr, expect)
+                }
                 UnOp::Not(_) => {
                     let a = self.expr(&u.expr, expect)?;
                     if a.diverges {
